@@ -192,6 +192,7 @@ func NewWorld(repo, verifd string, needTests bool) (*World, error) {
 	}
 	w.normaliseSyntax()
 	w.resolveRenames()
+	w.foldNewTailHelpers()
 	theWorld = w
 	return w, nil
 }
@@ -546,6 +547,9 @@ func (w *World) InBoundsProven(pos token.Pos) bool {
 // The identifiers are kept (their objects and types are unchanged), no node is
 // invented, and go/ssa builds the same code from either spelling.
 func (w *World) normaliseSyntax() {
+	if skipNormalise {
+		return
+	}
 	conv := func(s ast.Stmt) ast.Stmt {
 		ds, ok := s.(*ast.DeclStmt)
 		if !ok {
